@@ -1,7 +1,7 @@
 import Driver.Proto
 import Driver.KeysCommon
 import SsqlVerif.Model.GroupKey
-import SsqlVerif.Model.GroupAgg
+import SsqlVerif.Model.GroupPartition
 import SsqlVerif.Model.Counting
 import SsqlVerif.Spec.GroupBy
 import SsqlVerif.Spec.Counting
@@ -45,7 +45,7 @@ def cntResults (n : Nat) (rows : List Row) : List (List Val × List Int) :=
 /-- model of a session window that never expires + `Trigger()`: one batch per encoded session key,
 each batch through the aggregator -/
 def sesResults (rows : List Row) : List (List Val × List Int) :=
-  let sessions := GroupAgg.groups encSession (rows.map fun r => (r.1, r))
+  let sessions := GroupPart.groups encSession (rows.map fun r => (r.1, r))
   sessions.flatMap fun e => aggResults e.2.2
 
 /-- model of GLOBAL WINDOW TRIGGER WHEN count(*) >= N: running state per encoded key, purged on fire;
